@@ -472,7 +472,8 @@ def rule_memo_key(repo: Repo) -> List[Ob]:
                 return e
             base = origin(cont)
             durable = isinstance(base, ast.Attribute) or (isinstance(base, ast.Call) and (call_name(base) in ("setdefault", "getattr", "vars") or "__dict__" in src(base))) or \
-                (isinstance(base, ast.Name) and base.id not in defs.defs and base.id not in defs.params)
+                (isinstance(base, ast.Name) and base.id not in defs.params and
+                 not any(isinstance(x, ast.Name) and x.id == base.id and isinstance(x.ctx, ast.Store) for x in walk_no_nested(fnode)))      # a module / class level table
             if not durable:
                 continue
             n_sites += 1
@@ -485,11 +486,17 @@ def rule_memo_key(repo: Repo) -> List[Ob]:
                             used.add(nm)
             kexpr = origin(keye)
             in_key = {x.attr if isinstance(x, ast.Attribute) else x.id for x in ast.walk(kexpr) if isinstance(x, (ast.Attribute, ast.Name))}
+            # parameters of the enclosing function that are handed to the cached computation: the value is a function of them
+            fparams = set(f.params()[1:] if f.cls is not None else f.params())
+            for c in [x for x in ast.walk(st.value) if isinstance(x, ast.Call)]:
+                for a in list(c.args) + [k.value for k in c.keywords]:
+                    if isinstance(a, ast.Name) and a.id in fparams:
+                        used.add(a.id)
             missing = sorted(used - in_key)
             key = f"{f.relpath}::{f.qualname}::memo::{ctext[:30]}"
             if missing:
                 obs.append(Ob("G3-memo-key", key, f.relpath, st.lineno, f.qualname, False,
-                              f"`{src(st)[:70]}` caches a value computed with the option(s) {missing} under the key `{src(kexpr)[:50]}`, which does not contain them: "
+                              f"`{src(st)[:70]}` caches a value computed with {missing} (strategy options / parameters of the function) under the key `{src(kexpr)[:50]}`, which does not contain them: "
                               "a later request with another setting gets the value of the first one"))
             else:
                 obs.append(Ob("G3-memo-key", key, f.relpath, st.lineno, f.qualname, True, "the memo key contains every strategy option the cached value is computed with"))
